@@ -64,13 +64,40 @@ func c09HeavyRun(ctx *core.RunCtx) {
 		}
 		in.Scale = ev.Mod1Parameters.ScalingFactor()
 		h := hashCt(in)
-		ctx.Count("op.ckks.mod1.EvaluateNew", 1)
-		st := c09Exec(func() error { _, err := ev.Mod1Evaluator.EvaluateNew(in); return err })
-		ctx.Event("mod1.EvaluateNew level=%d -> %s", lvl, st)
+		// the plain entry point, or the one that folds a constant into the polynomial; called twice on the same
+		// evaluator with the same input: the evaluator's parameters are an argument like any other (unchanged), and
+		// the second result is the first
+		scaling := []complex128{1, 0.5, 0.25, 2}[ch.Draw("mod1-scaling", 4)]
+		name := "mod1.EvaluateNew"
+		call := func(c *rlwe.Ciphertext) (*rlwe.Ciphertext, error) { return ev.Mod1Evaluator.EvaluateNew(c) }
+		if ch.Bool("mod1-and-scale") {
+			name = "mod1.EvaluateAndScaleNew"
+			call = func(c *rlwe.Ciphertext) (*rlwe.Ciphertext, error) { return ev.Mod1Evaluator.EvaluateAndScaleNew(c, scaling) }
+		}
+		ctx.Count("op.ckks."+name, 1)
+		fp := core.NewSweep().FootprintOf(&ev.Mod1Parameters)
+		var r1, r2 *rlwe.Ciphertext
+		st := c09Exec(func() (err error) { r1, err = call(in); return })
+		ctx.Event("%s level=%d scaling=%v -> %s", name, lvl, scaling, st)
 		ctx.Count("oracle.twin-step", 1)
 		if hashCt(in) != h {
-			ctx.Fail("inputs", "ckks|mod1.EvaluateNew|op0-modified", "mod1 EvaluateNew returned a new ciphertext and changed the one it was given (level %d -> %d)", lvl, in.Level())
+			ctx.Fail("inputs", "ckks|"+name+"|op0-modified", "%s returned a new ciphertext and changed the one it was given (level %d -> %d)", name, lvl, in.Level())
 			return
+		}
+		if d := fp.Diff(core.NewSweep().FootprintOf(&ev.Mod1Parameters), 4); len(d) > 0 {
+			ctx.Fail("inputs", "ckks|"+name+"|parameters-modified", "%s (scaling %v) changed the parameters of the evaluator, which the caller holds too: %v", name, scaling, d)
+			return
+		}
+		if st.kind == 0 {
+			st2 := c09Exec(func() (err error) { r2, err = call(in.CopyNew()); return })
+			if st2.kind != 0 {
+				ctx.Fail("status", "ckks|"+name+"|history-dependent-status", "%s: second call with the same input -> %s", name, st2)
+				return
+			}
+			if ok, w := eqCt(bp.Parameters, r1, r2); !ok {
+				ctx.Fail("result", "ckks|"+name+"|history-dependent", "%s (scaling %v) called twice on one evaluator with the same input gives two different ciphertexts: %s", name, scaling, w)
+				return
+			}
 		}
 	default:
 		// homomorphic decoding with the output being one of the two inputs
